@@ -44,6 +44,7 @@ Fixpoint find_byte (b : N) (s : bytes) : option (bytes * bytes) :=
                     | Some (l, r) => Some (c :: l, r)
                     | None => None
                     end
+  end.
 
 Lemma parse_digits_app base dig a b acc :
   parse_digits base dig (a ++ b) acc =
@@ -246,7 +247,7 @@ Proof.
   - vm_compute. discriminate.
   - unfold print_dec, digits_of.
     destruct (to_digits_head_nonzero 10 (N.to_nat (N.size n)) ltac:(lia) n [] Hn) as [d [tl [E Hd]]].
-    rewrite E. cbn [map]. unfold dec_char. intros H. inversion H. lia.
+    rewrite E. cbn [map]. unfold dec_char. remember (48 + d) as x eqn:Hx. intros H. injection H as H1 _. lia.
 Qed.
 
 Lemma print_dec_head n : exists c t, print_dec n = c :: t /\ is_dec_char c = true.
